@@ -94,20 +94,6 @@ BuiltinSafe(t) == ~(t.k = "arr" /\ QualsOf(t) # {})
 IsRedeclarable(t) == ~IsVoid(t)                                   \* `extern T x;` / `T f;`
 NoIncompleteParam(t) == TRUE
 
-(* Audit exception marker: gcc 12's comptypes replaces a complete enum by its underlying integer type and   *)
-(* thereby drops the enum's qualifiers, so `const enum eu` and `const unsigned` (6.7.3p10: compatible) compare *)
-(* unequal there.  True when an aligned position pairs a QUALIFIED enum with a non-enum type.                  *)
-RECURSIVE QualEnumMeetsInt(_, _)
-QualEnumMeetsInt(t1, t2) ==
-  IF t1.k = "enum" /\ t2.k # "enum" THEN t1.q # {}
-  ELSE IF t2.k = "enum" /\ t1.k # "enum" THEN t2.q # {}
-  ELSE IF t1.k # t2.k THEN FALSE
-  ELSE IF t1.k = "ptr" THEN QualEnumMeetsInt(t1.to, t2.to)
-  ELSE IF t1.k = "arr" THEN QualEnumMeetsInt(t1.of, t2.of)
-  ELSE IF t1.k = "fn" THEN QualEnumMeetsInt(t1.ret, t2.ret) \/
-       (Len(t1.ps) = Len(t2.ps) /\ \E i \in 1..Len(t1.ps) : QualEnumMeetsInt(AdjustParam(t1.ps[i]), AdjustParam(t2.ps[i])))
-  ELSE FALSE
-
 (* ---------------------------------------------------------------------- *)
 NotDone == [done |-> FALSE]
 Init == c \in [t1 : Universe] /\ r = NotDone
